@@ -133,8 +133,15 @@ class C07(TracedProp):
         import numpy as np
         import fast_ticc.data_preparation as dp
         r = core.rng(out.case["seed"], "C07", "helper")
-        for _ in range(3):
-            lens = [r.choice([1, 1, 2, 3, r.randint(1, 40)]) for _ in range(r.randint(1, 6))]
+        w_ = out.case["args"]["window_size"]
+        run_lens = [length - w_ + 1 for length in out.case["data"]["lengths"]]
+        for rep in range(5):
+            # three fresh tuples, then the run's own stacked lengths, then the last tuple AGAIN: a helper that keeps
+            # state between calls (memoisation) must still give the same answer
+            if rep < 3:
+                lens = [r.choice([1, 1, 2, 3, r.randint(1, 40)]) for _ in range(r.randint(1, 6))]
+            elif rep == 3:
+                lens = run_lens
             try:
                 tpl = np.asarray(dp.label_switching_cost_template(list(lens) if r.random() < 0.5 else tuple(lens)))
             except Exception as e:  # noqa: BLE001
